@@ -566,7 +566,7 @@ class NPShim(types.ModuleType):
 
     def sum(self, a, axis=None, **kw):
         if is_sym(a):
-            r = _real_np.sum(_o(a), axis=axis)
+            r = _real_np.sum(_o(a), axis=axis, keepdims=bool(kw.get("keepdims", False)))
             return r.view(SA) if isinstance(r, np.ndarray) else r
         r = _real_np.sum(a, axis=axis, **kw)
         return self._wrap(r)
